@@ -96,6 +96,11 @@ CHECKS = {
    "Generated-input search: definitions are built from a structured spec and parsed by the real parser; lines are sampled from the pattern's own regex AST with class-specific edge values, then mutated; every column of TableDefinition::extract is compared with the model (leftmost match via the regex crate, own literal recognisers, arrays / timestamps position by position, DEFAULT / TRIM / NOT NULL / BOOLEAN-existence), and `SELECT *` output for a slice of lines. Exploration, not proof.",
    "Trusted: regex crate (leftmost match, split), chrono (calendar validity), std float parsing. Gray literals (inf/nan/overflowing exponents, absent timestamp parts, chrono leap second) are not judged. TZ=UTC.",
    "DESIGN.md §3 C01"),
+ "C02": (True,
+   "property-based testing: differential against a reference JSON path walk + typing model, plus the metamorphic column-independence relation, over generated definitions and documents",
+   "Generated-input search: JSON-path columns drawn from a generated document's own paths (then mutated) with natural and deliberately wrong types, CONVERT / DEFAULT / NOT NULL, mixed with regex columns; lines vary the document (fresh leaves incl. numbers beyond i64/f64, dropped and duplicated keys, invalid and non-JSON text). Every extracted column is compared with the model; each column must keep its value when the other columns are removed from the definition. Exploration, not proof.",
+   "JSON validity and the document tree come from the harness's own reader (numbers kept as text); REAL within 2 ULP; integral-valued reals for INT and documents with numbers beyond f64 are not judged.",
+   "DESIGN.md §3 C02"),
 }
 
 NOT_YET = {
